@@ -480,7 +480,35 @@ def rule_d(res: Results, idx: Index, mods: List[Module]) -> None:
     res.analysed["module_state_writers"] = n
 
 
+def rule_e(res: Results, idx: Index, mods: List[Module]) -> None:
+    """Process-wide markers that steer lowering (ContextVars consulted in a test) must be restored on every exit,
+    otherwise a conversion that fails half-way changes what later identical requests export."""
+    from .c13 import Mut, _guard_like_contextvars, _idiom_two, _in_block
+    for m in mods:
+        cvs = _guard_like_contextvars(m)
+        if not cvs:
+            continue
+        for fi in m.funcs.values():
+            tries = [t for t in walk_no_nested(fi.node) if isinstance(t, ast.Try) and t.finalbody]
+            sets = [n for n in walk_no_nested(fi.node) if isinstance(n, ast.Call) and isinstance(n.func, ast.Attribute) and n.func.attr == "set" and isinstance(n.func.value, ast.Name) and n.func.value.id in cvs]
+            for i, n in enumerate(sorted(sets, key=lambda x: x.lineno)):
+                var = n.func.value.id  # type: ignore[attr-defined]
+                key = f"{m.rel}::{fi.qualname}::{var}::set#{i}"
+                site = f"{m.rel}:{n.lineno}"
+                if any(_in_block(n, t.finalbody) for t in tries):
+                    res.ok("R-C14e", site, key, "restore inside finally", fi.qualname)
+                    continue
+                rts = [t for t in tries if any(isinstance(x, ast.Call) and isinstance(x.func, ast.Attribute) and x.func.attr in ("set", "reset") and isinstance(x.func.value, ast.Name) and x.func.value.id == var
+                                               for st in t.finalbody for x in ast.walk(st))]
+                if any(_in_block(n, t.body) for t in rts) or _idiom_two(Mut(n, "contextvar", var), rts):
+                    res.ok("R-C14e", site, key, f"{var} is reset by a finally on every exit", fi.qualname)
+                else:
+                    res.violation("R-C14e", site, key, f"the process-wide marker {var} is set but not reset on exceptional exits: after a conversion that fails here, later identical requests take a different lowering path "
+                                  "(the marker is consulted to decide whether a call is re-bound or inlined)", fi.qualname)
+
+
 def run(res: Results, idx: Index, tier: str) -> None:
+    res.rule("R-C14e", "process-wide markers consulted by the lowering are reset on every exit (history independence after failed conversions)", floor=2)
     res.rule("R-C14a", "id()/hash() results are used only as keys / in comparisons, never in names, attributes or orderings", floor=15)
     res.rule("R-C14b", "iteration over set / frozenset on the export path has an order-insensitive body", floor=10)
     res.rule("R-C14c", "plugin discovery order is canonical where it can matter", floor=1)
@@ -506,6 +534,7 @@ def run(res: Results, idx: Index, tier: str) -> None:
         _mypy_crosscheck(res, idx, sites)
     rule_c(res, idx)
     rule_d(res, idx, mods)
+    rule_e(res, idx, mods)
     _controls(res, idx)
 
 
